@@ -242,7 +242,7 @@ def identical_rational(a, b):
     return len(f[0]) == 0
 
 
-def clear_denominators(phi):
+def clear_denominators(phi, force=False):
     """rewrite every (dis)equality atom a ~ b of the boolean term phi into num(a-b) ~ 0.  Sound under the assumption that all
     denominators occurring in phi are non-zero (the caller asserts that).  Returns (new phi, changed?)."""
     _sync_units()
@@ -284,7 +284,7 @@ def clear_denominators(phi):
             return z3.If(ch[0], ch[1], ch[2])
         if k in (z3.Z3_OP_EQ, z3.Z3_OP_DISTINCT) and len(t.children()) == 2 and z3.is_arith(t.children()[0]):
             a, b = t.children()
-            if has_div(a, seen) or has_div(b, seen):
+            if force or has_div(a, seen) or has_div(b, seen):
                 try:
                     f = N.f_add(N.norm(a), N.norm(b), -1)
                 except (TooBig, ZeroDivisionError, RecursionError):
